@@ -122,8 +122,21 @@ func solve(script string, dir string, name string, timeout time.Duration, modelT
 	}
 	var errs []string
 	got := 0
+	var grace <-chan time.Time
 	for got < len(solvers) {
-		x := <-ch
+		var x r
+		if grace != nil {
+			select {
+			case x = <-ch:
+			case <-grace:
+				// thorough tier: a second, different solver did not answer within the grace period
+				cancel()
+				got = len(solvers)
+				continue
+			}
+		} else {
+			x = <-ch
+		}
 		got++
 		res.all[x.solver] = x.ans
 		if x.ans == "error" {
@@ -135,9 +148,19 @@ func solve(script string, dir string, name string, timeout time.Duration, modelT
 				cancel()
 				break
 			}
+			// thorough tier: wait for a confirmation by a different solver, but not for ever
+			g := timeout / 4
+			if g > 20*time.Second {
+				g = 20 * time.Second
+			}
+			grace = time.After(g)
 		} else if (x.ans == "unsat" || x.ans == "sat") && res.answer != "disagree" && x.ans != res.answer {
 			res.answer = "disagree"
 			res.output += "\n--- " + x.solver + " says " + x.ans
+		} else if (x.ans == "unsat" || x.ans == "sat") && x.ans == res.answer && solverFamily(x.solver) != solverFamily(res.solver) {
+			res.solver += "+" + x.solver
+			cancel()
+			break
 		}
 	}
 	if res.answer == "unknown" {
@@ -161,6 +184,16 @@ func solve(script string, dir string, name string, timeout time.Duration, modelT
 		}
 	}
 	return res
+}
+
+func solverFamily(name string) string {
+	if i := strings.Index(name, "/"); i >= 0 {
+		name = name[:i]
+	}
+	if i := strings.Index(name, "+"); i >= 0 {
+		name = name[:i]
+	}
+	return name
 }
 
 func firstLines(s string, n int) string {
